@@ -42,7 +42,7 @@ func TestDrive(t *testing.T) {
 		var state func() any
 		switch s.Kind {
 		case "ICA":
-			w := NewICAWorld(t)
+			w := NewICAWorld(t, s.Cfg == "xconn")
 			exec, state = w.Exec, func() any { return w.State() }
 		case "GMP":
 			w := NewGMPWorld(t)
